@@ -3,7 +3,7 @@
 use std::{cell::RefCell, collections::BTreeMap, io, os::fd::AsRawFd, path::PathBuf, rc::Rc, time::Duration};
 
 use compio_buf::BufResult;
-use compio_io::{AsyncReadExt, AsyncWriteExt};
+use compio_io::{AsyncRead, AsyncReadExt, AsyncWriteExt};
 use compio_net::{TcpListener, TcpStream, UnixListener, UnixStream};
 use compio_runtime::{CancelToken, StreamExt as _};
 use futures_util::StreamExt;
@@ -46,6 +46,7 @@ struct Book {
     /// accepted: (client id, peer port seen by the server, how)
     accepted: Vec<(u8, u16, &'static str)>,
     clients_connected: usize,
+    clients_finished: usize,
     done: bool,
 }
 
@@ -75,7 +76,14 @@ fn launch(l: &Listener, id: u8, book: &Rc<RefCell<Book>>, log: &SharedLog) {
                         if let Err(e) = s.write_all([id]).await.0 {
                             log.violate("C14/accept/client-write-error", format!("client {id}: {e}"));
                         }
-                        std::future::pending::<()>().await;
+                        // every yielded connection is kept open by the acceptor until the case is over:
+                        // end of stream / reset seen by the client before that means the connection was
+                        // accepted and then closed without ever being yielded
+                        let BufResult(r, _) = s.read([0u8; 1]).await;
+                        if !book.borrow().done {
+                            log.violate("C14/accept/connection-closed-unyielded", format!("client {id}: its connection was closed by the accepting side ({r:?}) while the acceptor still holds every yielded connection"));
+                        }
+                        book.borrow_mut().clients_finished += 1;
                         drop(s);
                     }
                     Err(e) => log.violate("C14/accept/client-connect-error", format!("client {id}: {e}")),
@@ -92,7 +100,14 @@ fn launch(l: &Listener, id: u8, book: &Rc<RefCell<Book>>, log: &SharedLog) {
                         if let Err(e) = s.write_all([id]).await.0 {
                             log.violate("C14/accept/client-write-error", format!("client {id}: {e}"));
                         }
-                        std::future::pending::<()>().await;
+                        // every yielded connection is kept open by the acceptor until the case is over:
+                        // end of stream / reset seen by the client before that means the connection was
+                        // accepted and then closed without ever being yielded
+                        let BufResult(r, _) = s.read([0u8; 1]).await;
+                        if !book.borrow().done {
+                            log.violate("C14/accept/connection-closed-unyielded", format!("client {id}: its connection was closed by the accepting side ({r:?}) while the acceptor still holds every yielded connection"));
+                        }
+                        book.borrow_mut().clients_finished += 1;
                         drop(s);
                     }
                     Err(e) => log.violate("C14/accept/client-connect-error", format!("client {id}: {e}")),
@@ -236,9 +251,11 @@ async fn acceptor(l: Listener, case: AcceptCase, book: Rc<RefCell<Book>>, log: S
         }
     }
     book.borrow_mut().done = true;
-    // connections and the listener stay open until the harness has looked at the listen queue
+    // from here on the yielded connections are let go (the clients see the end of their stream and
+    // finish); the listener stays open until the harness has looked at the listen queue
+    drop(keep);
     std::future::pending::<()>().await;
-    drop((keep, l));
+    drop(l);
 }
 
 pub fn run_accept(case: &AcceptCase) -> Outcome {
@@ -275,6 +292,10 @@ pub fn run_accept(case: &AcceptCase) -> Outcome {
     };
     let mut h = rt.enter(|| rt.spawn(acceptor(l, case.clone(), book.clone(), log.clone())));
     let finished = drive(&rt, || log.failed() || h.is_finished() || book.borrow().done, Duration::from_secs(std::env::var("VERIF_WATCHDOG").ok().and_then(|v| v.parse().ok()).unwrap_or(120)));
+    if finished && !log.failed() {
+        // let the clients run to their end so that nothing is in flight when the runtime goes
+        drive(&rt, || book.borrow().clients_finished >= book.borrow().clients_connected && book.borrow().clients_connected >= book.borrow().launched.len(), Duration::from_secs(20));
+    }
     let panic_msg = if h.is_finished() { join_now(&mut h).and_then(|r| r.err()) } else { None };
     let lg = log.take();
     let result = if let Some((sig, detail)) = lg.violation {
